@@ -26,7 +26,7 @@ def run_universe(d, name, mode="hier", timeout=1500, dump=True):
     return res
 
 
-def compact_event(ids, model=None):
+def compact_event(ids, model=None, prelude=None):
     """call the real compact (hooks on), then compact its result again"""
     params.import_a5()
     import a5
@@ -34,6 +34,18 @@ def compact_event(ids, model=None):
     arg = list(ids)
     e = {"ev": "compact", "input": [core.nibs(x) for x in ids], "ok": False, "exc": "", "ret": [], "again": [],
          "passes": [], "model": model or [], "argsame": True}
+    if prelude or (prelude is None and len(ids) % 5 == 0):
+        # the client looks at the face list / some children first and edits what it was given
+        try:
+            fl = a5.get_res0_cells()
+            if isinstance(fl, list) and fl:
+                fl.remove(fl[len(ids) % len(fl)])
+            if ids and ids[0]:
+                kl = a5.cell_to_children(a5.cell_to_parent(ids[0]))
+                if isinstance(kl, list) and kl:
+                    kl.pop()
+        except Exception:
+            pass
     _verif.drain()
     try:
         ret = a5.compact(arg)
